@@ -834,6 +834,11 @@ func (n *ExtendsNode) Render(w io.Writer, ctx *RenderContext) error {
 	// Ensure the context is released even if an error occurs
 	defer parentCtx.Release()
 
+	// The macros the child defined or imported stay callable from its blocks
+	for name, macro := range ctx.macros {
+		parentCtx.SetMacro(name, macro)
+	}
+
 	// Hand the block definitions collected so far (from this template and the
 	// templates extending it) to the parent; it appends its own when its root renders
 	for name, defs := range ctx.blockDefs {
@@ -1569,6 +1574,18 @@ func (n *RootNode) Render(w io.Writer, ctx *RenderContext) error {
 
 	// If this template extends another, handle that first
 	if extendsNode != nil {
+		// What a child template writes outside its blocks produces no output, but its
+		// assignments, imports and macro definitions take effect before the layout
+		// renders, so that the child's blocks can use them
+		for _, child := range n.children {
+			switch child.(type) {
+			case *SetNode, *ImportNode, *FromImportNode, *MacroNode:
+				if err := child.Render(io.Discard, ctx); err != nil {
+					return err
+				}
+			}
+		}
+
 		// Let the extends node handle the rendering, passing along
 		// all our blocks so they're available to the parent template
 		return extendsNode.Render(w, ctx)
